@@ -117,6 +117,44 @@ def step (h : Heap) : Op → Option Heap
   | .prio id dep excl w => adjust h id dep excl w
   | .close id => some (closeNode h id)
 
+/-! ### the same operations arriving as FRAMES on the wire (Framer -> processFrameFromReader) -/
+
+/-- connection-level state next to the tree: GOAWAY sent (`sc.inGoAway`), frame reader gone -/
+structure Conn where
+  heap : Heap
+  goAway : Bool
+  gone : Bool
+
+def maxId (h : Heap) : Nat := h.foldl (fun m n => if n.id > m then n.id else m) 0
+
+/-- one client frame: HEADERS (END_STREAM, complete request header block), PRIORITY, RST_STREAM.
+    * stream id 0 is rejected by the Framer itself: terminal read error, nothing is read any more;
+    * HEADERS: ignored after GOAWAY; even id or id <= maxStreamID of a non-open stream: connection
+      error (GOAWAY, tree untouched); on an OPEN stream they are trailers with pseudo headers: stream
+      error, `resetStream` closes the stream; else `processHeaders` creates the stream;
+    * PRIORITY: `processPriority` always (also after GOAWAY);
+    * RST_STREAM: idle stream (id > maxStreamID): connection error; open: `closeStream`; else nothing. -/
+def wireStep (c : Conn) (o : Op) : Option Conn :=
+  if c.gone then some c
+  else
+    match o with
+    | .new id pr =>
+      if id == 0 then some { c with gone := true, goAway := true }
+      else if c.goAway then some c
+      else if id % 2 == 0 then some { c with goAway := true }
+      else if (openNode c.heap id).isSome then (step c.heap (.close id)).map fun h => { c with heap := h }
+      else if id ≤ maxId c.heap then some { c with goAway := true }
+      else (step c.heap (.new id pr)).map fun h => { c with heap := h }
+    | .prio id dep excl w =>
+      if id == 0 then some { c with gone := true, goAway := true }
+      else (step c.heap (.prio id dep excl w)).map fun h => { c with heap := h }
+    | .close id =>
+      if id == 0 then some { c with gone := true, goAway := true }
+      else if id > maxId c.heap then some { c with goAway := true }
+      else (step c.heap (.close id)).map fun h => { c with heap := h }
+
+def weightOf (h : Heap) (a : Nat) : Option Nat := (findNode h a).map (·.weight)
+
 /-- executable acyclicity check used by the ORACLE on the implementation's dump: from every node the
     parent chain ends within `length` steps. -/
 def chainEnds (h : Heap) : Nat → Option Nat → Bool
